@@ -438,6 +438,14 @@ impl Driver {
                     return Event::Tick;
                 }
                 if is_sig && f.dmq > 0.0 && rng.chance(f.dmq) {
+                    let sigs: Vec<u32> = inflight.iter().copied().filter(|i| matches!(w.inflight[i].kind, MsgKind::Signature { .. })).collect();
+                    if sigs.len() >= 2 && rng.chance(0.4) {
+                        let mut ids = sigs.clone();
+                        rng.shuffle(&mut ids);
+                        ids.truncate(2 + rng.index(3));
+                        let junk_at = if rng.chance(0.5) { (0..1 + rng.index(2)).map(|_| rng.index(ids.len() + 1)).collect() } else { vec![] };
+                        return Event::DeliverDmqBatch { ids, junk_at };
+                    }
                     return Event::DeliverDmq { id, keep };
                 }
                 Event::Deliver { id, keep, damage }
